@@ -147,8 +147,9 @@ func vfCustomDecoration(chain int) decoration.Decoration {
 	}
 	d := decoration.Decoration{}
 	switch chain {
-	case 0: // horizontals
-		d.Horizontal, d.HOuter, d.HRule = g("Horizontal", "-"), g("HOuter", "="), g("HRule", "~")
+	case 0: // horizontals (one cell each; optionally of two runes: a base character and a combining overline)
+		mark := []string{"", "\u0305"}[vfChoice("two-rune-glyphs", 2)]
+		d.Horizontal, d.HOuter, d.HRule = g("Horizontal", "-"+mark), g("HOuter", "="+mark), g("HRule", "~"+mark)
 		d.Vertical, d.CrossPiece = "|", "+"
 	case 1: // verticals
 		d.Vertical, d.VBorder, d.VHeader, d.VBodyBorder, d.VBodyInner = g("Vertical", "|"), g("VBorder", "!"), g("VHeader", "H"), g("VBodyBorder", "B"), g("VBodyInner", ":")
